@@ -21,10 +21,10 @@ TECHNIQUE = 'runtime monitoring: post-conditions on mass/mz/mod_mass/chem_mass a
 LETTERS = [c for c in chem.MASS_LETTERS]
 
 
-def tol(mono, precision):
+def tol(mono, precision, fn='mass'):
     t = 1e-5 if mono else 2e-3
     if precision is not None:
-        t += 0.5 * 10 ** (-precision) + 1e-9
+        t += (1.0 if fn == 'mz' else 0.5) * 10 ** (-precision) + 1e-9
     return t
 
 
@@ -47,7 +47,7 @@ def install(ctx, st: State):
         ctx.decided()
         obs = call.result
         ref = e['ref']
-        t = tol(e['mono'], e['precision'])
+        t = tol(e['mono'], e['precision'], e['fn'])
         if abs(obs - ref) <= t:
             return
         kf = None
@@ -156,9 +156,8 @@ def run_case(ctx, st, pt, p, kw, charge, adducts, iso, loss, prec, mono, fn='mas
             return
         ref = ref / c
         ref_k2 = ref_k2 / c if ref_k2 is not None else None
-    if prec is not None:
-        ref = round(ref, prec)
-        ref_k2 = round(ref_k2, prec) if ref_k2 is not None else None
+    # the reference stays unrounded: the observed value is rounded (m/z: the mass is rounded, divided, rounded again),
+    # which tol() allows for; rounding the reference as well would double the allowance needed at a rounding boundary
     kw = {k: v for k, v in kw.items() if not (fn == 'mz' and k == 'use_isotope_on_mods')}
     st.expect = {'fn': fn, 'ref': ref, 'ref_k2': ref_k2, 'mono': mono, 'precision': prec, 'text': text, 'kwargs': kw}
     ctx.begin({'text': text, 'fn': fn, 'kwargs': kw, 'pep': rp.to_json(p), 'args': [charge, adducts, iso, loss, prec, mono]})
